@@ -299,11 +299,25 @@ def repeatParams (tshape newShape : Shape) (axis : Int) : Res (Int × Int × Int
     else pure (prod (newShape.drop (axis + 1).toNat)) : Res Int)
   pure (outers, stride, stride)
 
+/-- `storedRowMajor(t)`: the storage window is the row-major listing of the elements — one cell, or
+    contiguous, not column-major and without a pending transpose -/
+def storedRowMajor (t : Dense) : Bool :=
+  t.win.len == 1 || (!t.ap.o.nonContig && !t.ap.o.col && t.old.isNone)
+
+/-- the head of `denseRepeat`: a source that is not stored as its row-major listing is copied into a fresh
+    row-major tensor (`recycledDense` + `copyDenseIter(tmp, t, nil, nil)`), which is read instead -/
+def repeatSource (st : St) (t : Dense) : Res (St × Dense) :=
+  if storedRowMajor t then pure (st, t)
+  else do
+    let (st, tmp) ← recycled st t.dt t.shape
+    Dense.copyDenseIter st { tmp with eng := t.eng } t
+
 /-- `StdEng.denseRepeat(t, reuse, newShape, axis, size, repeats)` (after `denseRepeatCheck`) -/
 def denseRepeat (st : St) (t d : Dense) (newShape : Shape) (axis : Int) (size : Int) (reps : List Int) : Res St := do
-  let (outers, stride, newStride) ← repeatParams t.shape newShape axis
   if t.mask.isSome || d.mask.isSome then throwPanic "unmodelled: masked operand of Repeat"
   if t.dt != d.dt then throwPanic "unmodelled: Repeat into a tensor of another element type"
+  let (st, t) ← repeatSource st t
+  let (outers, stride, newStride) ← repeatParams t.shape newShape axis
   let _ := size
   let src ← readCap st t.win
   let dst ← readCap st d.win
@@ -323,6 +337,16 @@ def repeatReuse (st : St) (t reuse : Dense) (axis : Int) (reps : List Int) : Res
   let (newShape, newReps, size) ← shapeRepeat t.shape axis reps
   let newAxis := if axis == -1 then 0 else axis
   if !shapeEq reuse.shape newShape then throwErr "Reuse shape"
+  if !storedRowMajor reuse then
+    -- the blocks are written into a row-major temporary, which `copyDenseIter(reuse, tmp, nil, nil)` hands
+    -- to the reuse tensor element by element
+    if reuse.mask.isSome then throwPanic "unmodelled: masked operand of Repeat"
+    let (st, tmp) ← recycled st t.dt newShape
+    let st ← denseRepeat st t tmp newShape newAxis size newReps
+    if reuse.dt != tmp.dt then throwPanic "Cannot copy Dense arrays of different types"
+    let (st, _) ← Dense.copyDenseIter st reuse tmp
+    pure st
+  else
   denseRepeat st t reuse newShape newAxis size newReps
 
 /-- `BroadcastStrides(destShape, srcShape, destStrides, srcStrides)` -/
@@ -330,8 +354,8 @@ def broadcastStrides (destShape srcShape : Shape) (destStrides srcStrides : List
   let dims : Int := destShape.length
   let start := dims - srcShape.length
   if isVector destShape && isVector srcShape then
-    let s0 ← idx srcStrides 0 "srcStrides[0]"
-    return [s0]
+    -- two vectors: the source keeps the stride of each of its own axes (a copy of `srcStrides`)
+    return srcStrides
   if start < 0 then throwErr "dimMismatch"
   if destStrides.length != destShape.length then throwPanic "unmodelled: destination with fewer strides than axes"
   let rec go (i : Nat) : List Int → Res (List Int)
@@ -351,7 +375,7 @@ def broadcastStrides (destShape srcShape : Shape) (destStrides srcStrides : List
   go 0 destShape
 
 /-- offsets of a `FlatIterator` over an arbitrary access pattern; `ndNext` re-slices
-    `it.strides[:len(shape)]`, which panics for a one-element literal stride list -/
+    `it.strides[:len(shape)]`, which panics for a stride list shorter than the shape -/
 def iterOffsets (ap : AP) : Res (List Int) :=
   if !ap.shape.isEmpty && !ap.isVectorLike && ap.strides.length < ap.shape.length then
     throwPanic "ndNext: it.strides[:v+1] out of range"
@@ -831,62 +855,21 @@ def stepS (psBefore psAfter : PState) (ss : SState) (_stepIdx : Nat) (toks : Lis
     indexes `T.Shape()[axis]` with it. -/
 def Excl_concatAllAxes (axis : Int) : Bool := axis == -1
 
-/-- F64: `denseRepeat` / `fastCopyDenseRepeat` walk the raw storage window in blocks of
-    `∏ newShape[axis+1:]` cells: a source whose storage is not its own row-major listing — non-contiguous or
-    stepped views, lazily transposed tensors — is read at the wrong cells. -/
-def Excl_repeatLayout (t : Dense) : Bool :=
-  t.old.isSome || (t.win.len != 1 && t.ap.strides != calcStrides t.ap.shape)
-
-/-- F67: `RepeatReuse` writes the reuse tensor's raw storage in blocks of `∏ newShape[axis+1:]`
-    cells: a reuse tensor
-    that is a non-contiguous view or lazily transposed receives the blocks at the wrong cells (or panics). -/
-def Excl_reuseLayout (r : Dense) : Bool :=
-  r.old.isSome || (r.win.len != 1 && r.ap.strides != calcStrides r.ap.shape)
-
-/-- F68: for two vector-shaped patterns `BroadcastStrides` answers a one-element stride list
-    (`[]int{srcStrides[0]}`); when `assignArray` then has to go through iterators (the operand or
-    the slice of the result needs one) and that stride is not 1, the source iterator re-slices its
-    strides to the rank (2) and panics. Operands: row / column vectors `(1,n)`, `(n,1)` whose
-    leading stride is not 1. -/
-def Excl_concatVecIter (ops : List Dense) (axis : Int) : Bool :=
-  let total := sumI (ops.map (fun t => (getI? t.ap.shape axis).getD 0))
-  (match ops with
-   | a :: ts => (match shapeConcat a.ap.shape axis (ts.map (·.ap.shape)) with | .ok _ => true | _ => false)
-   | [] => false) &&
-  ops.any (fun t => t.ap.shape.length == 2 && isVector t.ap.shape && t.ap.strides.head? != some 1 &&
-    (t.requiresIterator || (isColVec t.ap.shape && axis == 1 && total > 1)))
-
 def excl (ps : PState) (toks : List String) : List String × Bool :=
   let tensors (opToks : List String) : List Dense := opToks.filterMap (fun t => (ps.obj t).map (·.2))
-  let concatTags (axis : Int) (opToks : List String) : List String :=
-    let ops := tensors opToks
-    (if Excl_concatAllAxes axis then ["F63"] else []) ++
-    (if Excl_concatVecIter ops axis then ["F68"] else [])
+  let concatTags (axis : Int) : List String := if Excl_concatAllAxes axis then ["F63"] else []
   match toks with
-  | "concat" :: _ :: axisTok :: opToks =>
+  | "concat" :: _ :: axisTok :: _ =>
     match axisTok.toInt? with
-    | some axis => (concatTags axis opToks, false)
+    | some axis => (concatTags axis, false)
     | none => ([], false)
   | "hstack" :: opToks =>
     let ops := tensors opToks
-    (concatTags (if (ops.head?.map (·.dims)) == some 1 then 0 else 1) opToks, false)
-  | "vstack" :: opToks => (concatTags 0 opToks, false)
-  | ["repeat", _, a, axisTok, repsTok] =>
-    match ps.obj a, parseAxis axisTok, parseIntList repsTok with
-    | some (_, t), some axis, some reps =>
-      let _ := (axis, reps)
-      ((if Excl_repeatLayout t then ["F64"] else []), false)
-    | _, _, _ => ([], false)
-  | ["repeatreuse", a, axisTok, repsTok, r] =>
-    match ps.obj a, parseAxis axisTok, parseIntList repsTok, ps.obj r with
-    | some (_, t), some axis, some reps, some (_, reuse) =>
-      let _ := (axis, reps)
-      ((if Excl_repeatLayout t then ["F64"] else []) ++
-       (if Excl_reuseLayout reuse then ["F67"] else []), true)
-    | _, _, _, _ => ([], false)
+    (concatTags (if (ops.head?.map (·.dims)) == some 1 then 0 else 1), false)
+  | "vstack" :: _ => (concatTags 0, false)
   | "calcConcat" :: axisTok :: _ =>
     match axisTok.toInt? with
-    | some axis => ((if Excl_concatAllAxes axis then ["F63"] else []), false)
+    | some axis => (concatTags axis, false)
     | none => ([], false)
   | _ => ([], false)
 
